@@ -858,13 +858,13 @@ def coq_item(it):
 
 
 def render_coq(t):
-    used_enums = sorted({it['kind'][1] for c in t['classes'] + t['listed'] for it in c['rd'] + c['wr'] if it['kind'][0] == 'enum'})
+    used_enums = sorted({it['kind'][1] for c in t['classes'] for it in c['rd'] + c['wr'] if it['kind'][0] == 'enum'})
     out = ['(* GENERATED from the read()/write() methods of kmip/core by translate/gen_schemas.py - do not edit.',
            '   %d classes under T; %d classes excluded (hand-modelled or containing a hand-modelled class). *)' % (
                len(t['classes']), len(t['excluded'])),
            'From PK Require Import Codec.Schema.', 'From PKGen Require Import Enums.',
            'Import ListNotations.', 'Open Scope Z_scope.', 'Open Scope string_scope.', '']
-    for c in t['classes'] + t['listed']:
+    for c in t['classes']:
         out.append('(* %s  %s: read l.%d, write l.%d *)' % (c['name'], c['file'], c['read_line'], c['write_line']))
         out.append('Definition C_%s : cls := {|' % c['name'])
         out.append('  c_name := "%s";' % c['name'])
@@ -881,8 +881,11 @@ def render_coq(t):
     out.append(';\n'.join('  ("%s", %d)' % (c['name'], c['default_tag']) for c in t['classes'] if c['default_tag'] is not None))
     out.append('].')
     out.append('')
-    out.append('(* translated, but listed in HANDMODELLED.txt (reader and writer disagree on the unchanged tree): NOT part of E *)')
-    out.append('Definition listed_classes : list cls := [' + '; '.join('C_' + c['name'] for c in t['listed']) + '].')
+    out.append('(* class-level refusal `if kmip_version < V: raise VersionNotSupported` at the top of read() AND write():')
+    out.append('   the items of such a class carry i_lo >= V; below V the code refuses everything (checked by the harness) *)')
+    out.append('Definition class_minver : list (string * Z) := [')
+    out.append(';\n'.join('  ("%s", %d)' % (c['name'], c['minver']) for c in t['classes'] if c['minver'] is not None))
+    out.append('].')
     out.append('')
     out.append('Definition excluded_classes : list string := [')
     out.append(';\n'.join('  "%s"' % n for n in sorted(t['excluded'])))
@@ -892,7 +895,7 @@ def render_coq(t):
 
 def render_json(t):
     enums = importlib.import_module('kmip.core.enums')
-    used_enums = sorted({it['kind'][1] for c in t['classes'] + t['listed'] for it in c['rd'] + c['wr'] if it['kind'][0] == 'enum'})
+    used_enums = sorted({it['kind'][1] for c in t['classes'] for it in c['rd'] + c['wr'] if it['kind'][0] == 'enum'})
     def cj(c):
         return {'name': c['name'], 'module': c['module'], 'file': c['file'], 'default_tag': c['default_tag'],
                 'oversize': c['oversize'], 'minver': c['minver'], 'flags': c['flags'], 'read_line': c['read_line'],
@@ -905,7 +908,6 @@ def render_json(t):
                      'rd': [{k: (list(v) if k == 'kind' else v) for k, v in i.items()} for i in c['rd']],
                      'wr': [{k: (list(v) if k == 'kind' else v) for k, v in i.items()} for i in c['wr']]}
                     for c in t['classes']],
-        'listed': [cj(c) for c in t['listed']],
         'enums': {e: sorted({m.value for m in getattr(enums, e)}) for e in used_enums},
         'excluded': t['excluded'],
         'listed_but_translatable': t['listed_but_translatable'],
